@@ -29,6 +29,11 @@ def Mirp.new (size horizon : Rat) : Mirp :=
   { size := size, horizon := horizon,
     g := { nodes := [⟨"Depot", 0, 0, none⟩], arcs := [], cap := some size, init := some 0 } }
 
+/-- `MIRP(cargo_size, time_horizon)` (repaired: a cargo size that is not positive is rejected — with size ≤ 0 the
+    window of the next visit never moves past the horizon and `add_nodes` would not terminate) -/
+def Mirp.create (size horizon : Rat) : Except Err Mirp :=
+  if size ≤ 0 then .error .value else .ok (Mirp.new size horizon)
+
 def Mirp.nodesOf (m : Mirp) (port : String) : List String :=
   ((m.mapping.find? fun e => e.1 = port).map (·.2)).getD []
 
